@@ -452,12 +452,32 @@ func checkC20(c *mc.Ctx) {
 	streams := c19Streams(c.Seed)
 	streams = append(streams, &Stream{Name: "big-payloads", Bytes: BigPayloadStream(c.Seed)}, MultiSectionStream(c.Seed))
 	for _, st := range streams {
-		for _, auto := range []bool{false, true} {
+		for _, cfg := range []struct {
+			auto bool
+			opt  string
+		}{{false, ""}, {true, ""}, {false, "skipper"}, {true, "skipper"}, {true, "parser"}} {
+			auto, optName := cfg.auto, cfg.opt
+			// the options of the Demuxer survive a Rewind: a skipper that removes every packet with an odd
+			// continuity counter or of the null PID, a parser that replaces the data of the PAT
 			mk := func() *astits.Demuxer {
-				if auto {
-					return astits.NewDemuxer(context.Background(), bytes.NewReader(st.Bytes))
+				var opts []func(*astits.Demuxer)
+				if !auto {
+					opts = append(opts, astits.DemuxerOptPacketSize(188))
 				}
-				return astits.NewDemuxer(context.Background(), bytes.NewReader(st.Bytes), astits.DemuxerOptPacketSize(188))
+				switch optName {
+				case "skipper":
+					opts = append(opts, astits.DemuxerOptPacketSkipper(func(p *astits.Packet) bool {
+						return p.Header.PID == 0x1fff || (p.Header.PID >= 0x100 && p.Header.PID < 0x1000 && p.Header.ContinuityCounter%2 == 1)
+					}))
+				case "parser":
+					opts = append(opts, astits.DemuxerOptPacketsParser(func(ps []*astits.Packet) ([]*astits.DemuxerData, bool, error) {
+						if ps[0].Header.PID == 0x11 {
+							return []*astits.DemuxerData{{PID: 0x11, PES: &astits.PESData{Data: []byte{byte(len(ps))}}}}, true, nil
+						}
+						return nil, false, nil
+					}))
+				}
+				return astits.NewDemuxer(context.Background(), bytes.NewReader(st.Bytes), opts...)
 			}
 			fd := DrainData(mk(), len(st.Bytes))
 			fp := DrainPackets(mk(), len(st.Bytes))
@@ -503,7 +523,7 @@ func checkC20(c *mc.Ctx) {
 			done := mc.ParFor(total, c.OverBudget, func(i int64) {
 				s, finalAPI := seqs[i/2], []string{"data", "packet"}[i%2]
 				d := mk()
-				det := map[string]any{"kind": "rewind", "stream": st.Name, "auto": auto, "ops": s, "then": "Rewind + drain " + finalAPI, "bytes": mc.Hex(st.Bytes)}
+				det := map[string]any{"kind": "rewind", "stream": st.Name, "auto": auto, "option": optName, "ops": s, "then": "Rewind + drain " + finalAPI, "bytes": mc.Hex(st.Bytes)}
 				fail := func(sig, msg string) { det["message"] = msg; c.Rep.Report(sig, det) }
 				if p := mc.Catch(func() {
 					for _, op := range s {
@@ -553,12 +573,15 @@ func checkC20(c *mc.Ctx) {
 				if len(s) > 0 {
 					c.Ev.Class("rewind-after-consumption", 1)
 				}
-				c.Ev.Distinct(fmt.Sprintf("%s|%v|%s|%s", st.Name, auto, s, finalAPI))
+				if optName != "" {
+					c.Ev.Class("rewind-with-skipper-or-parser", 1)
+				}
+				c.Ev.Distinct(fmt.Sprintf("%s|%v|%s|%s|%s", st.Name, auto, optName, s, finalAPI))
 			})
-			c.Ev.AddScenario(mc.Scenario{Name: fmt.Sprintf("rewind:%s:auto=%v", st.Name, auto), SpaceSize: total, Executed: done, Exhaustive: done == total,
+			c.Ev.AddScenario(mc.Scenario{Name: fmt.Sprintf("rewind:%s:auto=%v:%s", st.Name, auto, optName), SpaceSize: total, Executed: done, Exhaustive: done == total,
 				Bound: fmt.Sprintf("all sequences over {NextPacket,NextData,Rewind} of length <= %d; D^k R D^k2 for all k,k2 <= %d; P^k (R D^k2); each followed by Rewind and a full drain through NextData and through NextPacket", depth, totalD+1)})
 			c.Ev.Sample(map[string]any{"stream": st.Name, "auto": auto, "example_ops": "DDPRD then Rewind, drain"})
 		}
 	}
-	c.Ev.Require("rewind-after-consumption")
+	c.Ev.Require("rewind-after-consumption", "rewind-with-skipper-or-parser")
 }
